@@ -337,9 +337,11 @@ func runGT(c *mon.Ctx, l *curveLib) {
 		c.Check("Bytes", name+"/Bytes/encoding-mismatch/"+e.n, bytes.Equal(got, want), func() string {
 			return fmt.Sprintf("z=%v library=%s reference=%s", e.e, hx(got), hx(want))
 		})
-		c.Check("Marshal", name+"/Marshal/encoding-mismatch/"+e.n, bytes.Equal(got2, want), func() string {
-			return fmt.Sprintf("z=%v library=%s reference=%s", e.e, hx(got2), hx(want))
-		})
+		if hasMarshal {
+			c.Check("Marshal", name+"/Marshal/encoding-mismatch/"+e.n, bytes.Equal(got2, want), func() string {
+				return fmt.Sprintf("z=%v library=%s reference=%s", e.e, hx(got2), hx(want))
+			})
+		}
 		judge(want, "valid:"+e.n)
 	}
 	// non-canonical coefficient at every position
